@@ -199,13 +199,15 @@ def ref_quality(media_type, header):
 
 
 TYPES = ['text/plain', 'text/plain; format=flowed', 'text/html', 'application/json', 'application/json; v=1',
-         'application/json;v=2;w=1', 'a/b+json', 'image/png', '*/*', 'text/*', 'nonsense', 'text/plain; format=fixed']
+         'application/json;v=2;w=1', 'a/b+json', 'image/png', '*/*', 'text/*', 'nonsense', 'text/plain; format=fixed', 'text/html;level=1']
 ACCEPTS = [
     '*/*', 'text/*', 'text/plain', 'text/plain;q=0', 'text/*;q=0.5, text/plain;q=0.1', 'text/plain;q=0.9, text/plain; format=flowed; charset=utf-8;q=0.1',
     'text/plain; format=flowed;q=0.3, text/plain;q=0.7', 'application/json; v=1', 'application/json; v="1"', 'application/json;v=2',
     'application/json;q=0.2, application/json;v=2;w=1;q=0.6', '*/*;q=0.1, text/html', 'text/html;q=0, */*;q=0.4', 'image/*;q=1.000',
     'text/plain;q=1.5', 'text/plain;q=abc', 'text/plain;q=', 'text', '', 'text/plain, ,text/html', ' text/plain ; q=0.5 ,text/html',
     'text/plain;q=0.001', 'TEXT/PLAIN', 'text/plain;FORMAT=flowed', 'a/b+json;q=0.5, a/*;q=0.4', 'text/plain;q=0.5;q=0.7',
+    # q is an ordinary position-independent parameter of a range: parameters written after it still belong to the range
+    'text/plain;q=1.0;format=flowed', 'text/html;q=0.1;level=1, text/html;q=0.9', 'application/json;q=0.5;v=2;w=1, application/json;q=0.4',
 ]
 
 
@@ -227,7 +229,7 @@ def quality_menu_case(ti, ai):
     return 1
 
 
-CAND_LISTS = [(0, 2, 3), (3, 0), (1, 0), (0, 1), (4, 5, 3), (6, 7), (2,), (), (11, 1, 0), (7, 3, 2, 0)]
+CAND_LISTS = [(0, 2, 3), (3, 0), (1, 0), (0, 1), (4, 5, 3), (6, 7), (2,), (), (11, 1, 0), (7, 3, 2, 0), (12, 2), (11, 1)]
 
 
 def best_menu_case(ci, ai):
@@ -351,9 +353,10 @@ class _IterFail(Exception):
     pass
 
 
-HKEYS = ['application/json', 'application/x', 'a/*']
+HKEYS = ['application/json', 'application/x', 'a/*', 'application/x; v=2']
 RESOLVE_TYPES = [None, '*/*', 'application/json', 'application/json; charset=utf-8', 'application/x', 'a/b', 'a/b+json',
-                 'text/plain', 'application/*', 'application/x; v=1']
+                 'text/plain', 'application/*', 'application/x; v=1', 'application/x;v=2', 'application/x; v=2; charset=utf-8',
+                 'application/x; q=0']
 H_OPS = {0: 'set', 1: 'del', 2: 'update', 3: 'pop', 4: 'clear', 5: 'setdefault', 6: 'copy-mutate-copy', 7: 'copy-mutate-orig',
          8: 'resolve', 9: 'update-from-failing-iterable', 10: 'ior', 11: 'copy.copy-mutate-both'}
 
@@ -545,7 +548,7 @@ def partitions(tier, seed):
         P.append(_part('handlers_%s' % '-'.join(H_OPS[o] for o in ops), args, pre,
                        'handlers_case(%r, [%s], [%s], rnf)' % (ops, ', '.join('k%d' % i for i in range(n)),
                                                                   ', '.join('t' for i in range(n))),
-                       150 if q else 400,
+                       (150 if n < 3 else 300) if q else 600,
                        'Handlers history %s (each op on a symbolic key from %r; the same symbolic content type, one of %d, is resolved after every op) vs a '
                        'plain-dict mirror + reference matcher' % ([H_OPS[o] for o in ops], HKEYS, len(RESOLVE_TYPES))))
     return P
